@@ -175,9 +175,13 @@ func (i Branch) String() string {
 }
 
 func (i Branch) adjust(offset int, state *GenState) SearchInstruction {
+	// the stored pattern is relocated again by every later reference, so the
+	// shared slice must not be modified in place
+	branches := make([]int, len(i.Branches))
 	for idx := range i.Branches {
-		i.Branches[idx] += offset
+		branches[idx] = i.Branches[idx] + offset
 	}
+	i.Branches = branches
 	return i
 }
 
